@@ -68,6 +68,22 @@ TRANSRETRY_C13 = _tr("trans_retry_nothing_missing", "trans_retry_callers", "tran
 TRANSRETRY_C12 = _tr("trans_retry_nothing_missing", "trans_dispatch_arm", "trans_dispatch_inline", "trans_dispatch_handoff", "trans_dispatch_spawn", "trans_spawned_body",
                      "trans_dispatch_invalid", "trans_startWorkers", "trans_dispatchCap", "trans_worker_rounds")
 
+# logger/*.go (gotolean-logger -> Generated/TransLogger.lean), job/isolated_job.go (same generated file), job/{function,shell,curl}_job.go (gotolean-jobs)
+TRANSLOGGER = [("QuartzModel.Theorems.TransLogger", "TransLogger." + t) for t in [
+    "trans_logger_nothing_missing", "trans_logger_area_nothing_missing", "trans_level_table", "trans_enabled", "trans_NewSimpleLogger", "trans_formatMessage",
+    "trans_formatMessage_strings", "trans_simpleCall", "trans_simpleLog", "trans_erun", "C18_filter_trans", "C18_filter_line_trans", "C18_off_silences_all_trans",
+    "C18_format_trans", "C18_label_trans", "C18_mutex_trans", "log_spec", "trans_slogCall", "trans_slogLog", "trans_NewSlogLogger", "C18_slog_level_map_trans",
+    "C18_noop_trans", "trans_noop_bodies"]]
+TRANSISOLATED = [("QuartzModel.Theorems.TransIsolated", "TransLogger." + t) for t in [
+    "trans_isolated_nothing_missing", "trans_NewIsolatedJob", "trans_isolated_call", "pcStep_is_Step", "trans_execute_program", "C17_fail_fast_trans", "C17_fail_fast_steps",
+    "C17_reopens_trans", "trans_isolated_facts"]]
+TRANSJOBS = [("QuartzModel.Theorems.TransJobs", "TransJobs." + t) for t in [
+    "trans_jobs_nothing_missing", "trans_status_consts", "trans_constructors", "trans_jobs_field_facts",
+    "trans_function_execute", "trans_function_panic", "C16_function_status_iff_trans", "trans_function_lock_discipline", "trans_function_accessors", "C16_last_execution_function_trans",
+    "trans_shell_execute", "C16_shell_status_iff_trans", "C16_shell_status_exit_trans", "trans_shell_lock_discipline", "C16_callback_once_trans_shell", "trans_shell_accessors",
+    "C16_last_execution_shell_trans", "trans_curl_execute", "C16_curl_status_iff_trans", "trans_curl_lock_discipline", "trans_curl_do_panic_holds_lock", "trans_curl_accessors",
+    "C16_open_bodies_le_one_trans", "C16_last_execution_curl_trans"]]
+
 ODO = [("QuartzModel.Proofs.Odometer", t) for t in ["Odo.findForward_spec", "Odo.loop_fuel", "Odo.μ6_measure"]]
 
 # the dispatch step and the API calls are atomic with respect to each other because of the queue lock: its facts are obligations
@@ -115,21 +131,21 @@ THEOREMS = {
            [("QuartzModel.Theorems.C15F4", "Faults.C15_size_retry_full_fails")] +
            [("QuartzModel.Proofs.FaultsLemmas", "Faults.no_tick_before"), ("QuartzModel.Proofs.FaultsLemmas", "Faults.runQ_nodup"),
             ("QuartzModel.Proofs.FaultsLemmas", "Faults.iter_spurious"), ("QuartzModel.Proofs.FaultsLemmas", "Faults.backoff_after")],
-    "C16": [("QuartzModel.Theorems.MissingJobs", "Facts.missing_none_jobs")] + [("QuartzModel.Theorems.C16", "Jobs." + t) for t in [
+    "C16": TRANSJOBS + [("QuartzModel.Theorems.MissingJobs", "Facts.missing_none_jobs")] + [("QuartzModel.Theorems.C16", "Jobs." + t) for t in [
         "C16_facts_tests", "C16_facts_function", "C16_facts_shell", "C16_facts_curl", "C16_facts_accessors",
         "C16_function_status_iff", "C16_shell_status_iff", "C16_status_total", "C16_shell_status_exit", "C16_curl_status_iff",
         "C16_curl_status_failure_iff", "C16_status_iff_code", "C16_function_fields", "C16_shell_fields", "C16_curl_fields",
         "C16_last_execution", "C16_store_order", "C16_serialised", "C16_last_execution_function", "C16_last_execution_shell",
         "C16_last_execution_curl", "C16_fields_mix_without_lock", "C16_callback_once", "C16_open_bodies_le_one",
         "C16_open_bodies_le_one_concurrent", "C16_leak_without_close", "C16_leak_unbounded"]],
-    "C18": [("QuartzModel.Theorems.MissingLogger", "Facts.missing_none_logger")] + [("QuartzModel.Theorems.C18", "Logger." + t) for t in [
+    "C18": TRANSLOGGER + [("QuartzModel.Theorems.MissingLogger", "Facts.missing_none_logger")] + [("QuartzModel.Theorems.C18", "Logger." + t) for t in [
         "C18_facts", "C18_facts_output", "C18_facts_slog", "C18_filter", "C18_filter_line", "C18_off_silences_all", "C18_trace_emits_all",
         "C18_level_order", "C18_format", "C18_format_indexed", "C18_format_shapes", "C18_output_line", "C18_label", "C18_complete",
         "C18_mutex", "C18_label_race", "C18_label_race_locked", "C18_noop", "C18_slog_level_map", "C18_slog_attrs"]],
     "C13": TRANSRETRY_C13 + [("QuartzModel.Theorems.C13", "Sched.Retry." + t) for t in [
         "C13_facts", "C13_attempts", "C13_attempts_general", "C13_attempts_structure", "C13_stops_on_success", "C13_cancel_stops",
         "C13_cancel_bound", "C13_cancelled_last", "C13_interval", "C13_interval_time", "C13_panic_ends_sequence", "C13_recovered_iff", "C13_returns"]],
-    "C17": [("QuartzModel.Theorems.C17", "Jobs.Isolated." + t) for t in [
+    "C17": TRANSISOLATED + [("QuartzModel.Theorems.C17", "Jobs.Isolated." + t) for t in [
         "C17_facts", "C17_flag_iff", "C17_mutex", "C17_mutex_running", "C17_fail_fast", "C17_busy_only_if_rejected", "C17_reopens",
         "C17_admitted_when_free", "C17_reopens_progress", "C17_reopens_fails_without_defer", "C17_rejected_for_ever_without_defer"]],
     "C12": TRANSRETRY_C12 + [("QuartzModel.Theorems.C12", "Pool." + t) for t in [
